@@ -70,6 +70,11 @@ def s_res_driven(draw):
     c["tight"] = draw(st.sampled_from([False, False, True]))
     c["crs"] = draw(crs_tags(allow_none=False))
     c["res_form"] = draw(st.sampled_from(["xy", "xy", "scalar"]))
+    if c["entry"] == "zoom_to_res":
+        # the box that is re-gridded: any orientation (zoom_to(resolution=) re-grids rotated boxes too, _map.py relies
+        # on it), any small shape; the request is sometimes the box's *own* resolution
+        c["zsrc"] = {"rot": draw(st.sampled_from([0, 0, 0, 10, 30, 45, 90, 137, 180])), "flip": draw(st.sampled_from([[1, -1], [1, -1], [1, 1], [-1, -1], [-1, 1]])),
+                     "shape": [draw(st.integers(1, 9)), draw(st.integers(1, 9))], "same_res": draw(st.sampled_from([False, False, True]))}
     return c
 
 
@@ -144,10 +149,25 @@ def o_res(case, T):
         from affine import Affine
 
         l, b, r_, t = bbox
-        n0x, n0y = 7, 5
-        src = GeoBox((n0y, n0x), Affine((r_ - l) / n0x, 0, l, 0, -(t - b) / n0y, t), crs)
+        z = case.get("zsrc") or {"rot": 0, "flip": [1, -1], "shape": [5, 7], "same_res": False}
+        n0y, n0x = z["shape"]
+        px, py = z["flip"][0] * (r_ - l) / n0x, z["flip"][1] * (t - b) / n0y
+        A0 = Affine.translation((l + r_) / 2, (b + t) / 2) * Affine.rotation(z["rot"]) * Affine.scale(px, py) * Affine.translation(-n0x / 2, -n0y / 2)
+        src = GeoBox((n0y, n0x), A0, crs)
+        if z["same_res"]:
+            # ask for the resolution the box itself reports
+            sr = src.resolution
+            rx, ry = float(sr.x), float(sr.y)
+            res = resxy_(rx, ry)
+            T.cls("zoom_to:own_resolution")
+        T.cls("zoom_to:rot%s" % ("0" if z["rot"] % 180 == 0 else "90" if z["rot"] % 90 == 0 else "ated"))
+        corners = [A0 * (0, 0), A0 * (n0x, 0), A0 * (n0x, n0y), A0 * (0, n0y)]
         sb = src.boundingbox
         bbox = [sb.left, sb.bottom, sb.right, sb.top]
+        # the bounding box is the envelope of the four corner images (C02 decides that; here it only has to be sane)
+        ext = [min(c[0] for c in corners), min(c[1] for c in corners), max(c[0] for c in corners), max(c[1] for c in corners)]
+        slack = 1e-9 * max(1.0, *(abs(v) for v in ext))
+        require(all(abs(u - v) <= slack for u, v in zip(bbox, ext)), "zoom_to source bounding box %r, corner envelope %r", bbox, ext)
         gb = src.zoom_to(resolution=res)
         ox, oy = None, None
         tol = 0.01
